@@ -15,18 +15,24 @@
      wrong_kind_uint_refuted, wrong_kind_float_refuted, wrong_toptype_refuted, to_go_mixed_sharing_refuted,
      from_go_to_go_time_refuted, from_go_to_go_embedded_refuted, from_go_to_go_nil_pointer_refuted
 
-   Full statements not proved:
-     to_go_shares  : for ANY two occurrences of one record identity in slots of one type anywhere in a tree whose
-                     record identities determine their content, the two slots receive the same pointer.  Proved
-                     here only for consecutive references (shares_next); missing: persistence of a cache entry
-                     across the conversions in between (an induction over conv for trees in which the identity
-                     does not reoccur with another content).
-     from_go_to_go : well_typed r T -> echo r = Ok (spec_echo r).  FALSE in general (three refutations below);
-                     it holds on the fragment without time/slice/map/struct-valued/embedded fields and with every
-                     pointer and interface field set — checked by the correspondence run and the Examples, not proved. *)
+   Second round (proved):
+     conv_cache_monotone      every conversion only EXTENDS the state: a dedup-cache entry, once present, stays and keeps
+                              its target; the heap only grows; identities entering the cache occur in the converted value
+     to_go_shares             FULL: any two conversions of records with one identity into slots of one type, anywhere
+                              inside one conversion of an acyclic value (call tree `subs`: slice elements, map values,
+                              record fields at any depth), yield the same content / the same heap object
+     to_go_shares_ptr_and_iface, shared_hit_allocates_nothing, record_stays_cached
+     from_go_to_go_scalar_fragment   echo r = Ok (expect r) for ALL struct declarations without embedded fields whose
+                              fields are int64/int/float64/string/bool/[]byte and ALL records whose keys resolve to
+                              fields their values fit (the fragment bounded by the four echo-* findings)
+     hist_reflects_current    after ANY history of conversion steps an explicit conversion attaches an object holding
+                              the conversion of every CURRENT field; receiver calls; failed steps leave nothing behind
+   Still not proved:
+     from_go_to_go with non-nil pointer / interface fields to fragment structs (fillHashHelper handles them; needs the
+     heap-stability of from_val under later allocations and freshness of identities; checked by correspondence only). *)
 From Coq Require Import ZArith List Bool.
 Import ListNotations.
-Require Import ZV.Model.GoConv ZV.Model.GoConvSpec ZV.Proofs.GoConvProofs.
+Require Import ZV.Model.GoConv ZV.Model.GoConvSpec ZV.Proofs.GoConvProofs ZV.Proofs.GoConvShare ZV.Proofs.GoConvHist ZV.Proofs.GoConvRound.
 Open Scope Z_scope.
 
 Theorem to_go_fills_all : forall res_ te bty cv l base st b' st',
@@ -211,3 +217,104 @@ Theorem from_go_to_go_nil_pointer_refuted :
   exists te t r a, spec_echo 9 te t r = SOk a /\ echo 9 te t r = Crash 1.
 Proof. exists te_ex, nF, (SRec 0 [102] [([97], SInt 1)]). eexists. split; vm_compute; reflexivity. Qed.
 Print Assumptions from_go_to_go_nil_pointer_refuted.
+
+(* ---- second round ------------------------------------------------------------------------------- *)
+
+Theorem conv_cache_monotone : forall fuel te top ty cur s st v st',
+    conv fuel te top ty cur s st = Ok (v, st') -> ext (fun id => occurs id s = true) st st'.
+Proof. exact conv_ext. Qed.
+Print Assumptions conv_cache_monotone.
+
+Theorem to_go_shares : forall te root c1 c2 id tn1 fs1 tn2 fs2,
+    ok te root -> acyclic (c_s root) = true ->
+    subs te root c1 -> subs te root c2 ->
+    c_s c1 = SRec id tn1 fs1 -> c_s c2 = SRec id tn2 fs2 ->
+    c_top c1 = false -> c_top c2 = false ->
+    c_ty c1 = c_ty c2 -> c_ty c1 <> TUnsupported ->
+    c_v c1 = c_v c2.
+Proof. exact to_go_shares_full. Qed.
+Print Assumptions to_go_shares.
+
+Theorem to_go_shares_ptr_and_iface : forall te root c1 c2 id tn1 fs1 tn2 fs2 s i,
+    ok te root -> acyclic (c_s root) = true ->
+    subs te root c1 -> subs te root c2 ->
+    c_s c1 = SRec id tn1 fs1 -> c_s c2 = SRec id tn2 fs2 ->
+    c_top c1 = false -> c_top c2 = false ->
+    c_ty c1 = TPtr s -> c_ty c2 = TIface i ->
+    exists loc, c_v c1 = GPtr (Some loc) /\ c_v c2 = GIface (Some (s, loc)).
+Proof. exact to_go_shares_ptr_iface. Qed.
+Print Assumptions to_go_shares_ptr_and_iface.
+
+Theorem to_go_allocates_only_on_first : forall te c id tn fs,
+    ok te c -> c_s c = SRec id tn fs -> cache_find id (c_st c) <> None -> c_st' c = c_st c.
+Proof. exact shared_hit_allocates_nothing. Qed.
+Print Assumptions to_go_allocates_only_on_first.
+
+Theorem to_go_record_stays_cached : forall te c id tn fs fuel top ty cur s v st'',
+    ok te c -> c_s c = SRec id tn fs -> c_top c = false -> c_ty c <> TUnsupported ->
+    conv fuel te top ty cur s (c_st' c) = Ok (v, st'') -> cache_find id st'' <> None.
+Proof. exact record_stays_cached. Qed.
+Print Assumptions to_go_record_stays_cached.
+
+Theorem from_go_to_go_scalar_fragment : forall f te T d reg,
+    find_struct te T = Some d -> s_reg d = Some reg -> scalar_decl d = true ->
+    forall id tn fs,
+      find_reg te tn = Some d -> s_name d = T ->
+      good_fs f te T d fs -> paths_independent (res_paths (resolve (S f) te T) fs) = true ->
+      echo (S (S f)) te T (SRec id tn fs) = Ok (expect (resolve (S f) te T) reg (s_fields d) fs).
+Proof. exact round_trip_scalar. Qed.
+Print Assumptions from_go_to_go_scalar_fragment.
+
+Theorem hist_reflects_current : forall f te ops tname id tn fs d loc h' sh',
+    find_reg te tn = Some d -> s_name d = tname ->
+    hist_convert (S f) te true tname id (SRec id tn fs) (fst (hist_run (S f) te ops)) (snd (hist_run (S f) te ops))
+      = Ok (GPtr (Some loc), (h', sh')) ->
+    paths_independent (res_paths (resolve f te tname) fs) = true ->
+    shadow_find id sh' = Some loc /\
+    exists obj, nth_error h' loc = Some obj /\
+      forall k v, In (k, v) fs ->
+        exists path sty curv st1 nv st2,
+          resolve f te tname k = Some path /\ type_at te (TStruct tname) path = Some sty /\
+          conv f te false sty curv v st1 = Ok (nv, st2) /\ get_path obj path = Some nv.
+Proof. exact GoConvHist.hist_reflects_current. Qed.
+Print Assumptions hist_reflects_current.
+
+Theorem hist_receiver_converts_iff_unattached : forall fuel te tname id r h sh,
+    (shadow_find id sh = None -> hist_receiver fuel te tname id r h sh = hist_convert fuel te true tname id r h sh) /\
+    (forall loc, shadow_find id sh = Some loc -> hist_receiver fuel te tname id r h sh = Ok (GPtr (Some loc), (h, sh))).
+Proof. intros. split; [apply hist_receiver_unattached|intros; apply hist_receiver_attached; assumption]. Qed.
+Print Assumptions hist_receiver_converts_iff_unattached.
+
+Theorem hist_failed_conversion_leaves_nothing : forall fuel te hs id tname r,
+    (forall x, hist_convert fuel te true tname id r (fst hs) (snd hs) <> Ok x) ->
+    hist_step fuel te hs (HTogo id tname r) = hs.
+Proof. exact hist_failed_step_leaves_nothing. Qed.
+Print Assumptions hist_failed_conversion_leaves_nothing.
+
+(* non-vacuity of the round trip theorem: D = Deep{P int64} of the example table is in the fragment *)
+Example round_trip_example :
+  echo 9 te_ex nD (SRec 0 [100] [([112], SInt 42)]) = Ok (expect (resolve 8 te_ex nD) [100] [mkField [80] None false TInt] [([112], SInt 42)])
+  /\ expect (resolve 8 te_ex nD) [100] [mkField [80] None false TInt] [([112], SInt 42)] = SRec 0 [100] [([80], SInt 42)].
+Proof. split; vm_compute; reflexivity. Qed.
+
+(* non-vacuity of the sharing theorem: in the conversion of (flat a:1 p:l s:l), l = (leaf n:7), the conversions of l
+   into the pointer field and into the interface field are two members of the call tree *)
+Definition leaf7 := SRec 0 [108] [([110], SInt 7)].
+Definition r_share2 := SRec 1 [102] [([97], SInt 1); ([112], leaf7); ([115], leaf7)].
+Definition zF := GStruct nF [GInt 0; GPtr None; GIface None].
+Definition stL := mkSt [GStruct nL [GInt 7; GTime None; GInt 0]] [(0, (TPtr nL, GPtr (Some 0%nat)))].
+Definition root_ex := mkCall 9 true (TStruct nF) zF r_share2 empty_state
+                             (GStruct nF [GInt 1; GPtr (Some 0%nat); GIface (Some (nL, 0%nat))]) stL.
+Definition c1_ex := mkCall 8 false (TPtr nL) (GPtr None) leaf7 empty_state (GPtr (Some 0%nat)) stL.
+Definition c2_ex := mkCall 8 false (TIface nI) (GIface None) leaf7 stL (GIface (Some (nL, 0%nat))) stL.
+Example shares_example :
+  ok te_ex root_ex /\ acyclic (c_s root_ex) = true /\ subs te_ex root_ex c1_ex /\ subs te_ex root_ex c2_ex.
+Proof.
+  split; [vm_compute; reflexivity|]. split; [vm_compute; reflexivity|]. split.
+  - eapply subs_step; [apply subs_refl| |vm_compute; reflexivity].
+    eapply (sub_field te_ex 8 true (TStruct nF) zF 1 [102] [([97], SInt 1)] ([112], leaf7) [([115], leaf7)]);
+      vm_compute; reflexivity.
+  - eapply subs_step; [apply subs_refl| |vm_compute; reflexivity].
+    eapply (sub_field te_ex 8 true (TStruct nF) zF 1 [102] [([97], SInt 1); ([112], leaf7)] ([115], leaf7) []);
+      vm_compute; reflexivity.
+Qed.
